@@ -344,10 +344,11 @@ fn decide(c: &Case, tier: Tier, out: &mut CaseOut, tolerate_known: bool) -> Resu
                 // ... including the case where the replay is stuck *at* such a step: a blocking operation that originally
                 // ended through something the listed edges do not cover (semaphore closed, channel disconnected)
                 let stuck_at_uncovered = (0..prog.tasks.len()).any(|t| {
-                    let np = r2.logs[0].entries.iter().filter(|g| g.task == t).count();
-                    l.entries.iter().any(|f| {
-                        f.task == t
-                            && f.pc == np
+                    // the first recorded step of task t that did not re-occur
+                    let next = l.entries.iter().find(|f| f.task == t && !r2.logs[0].entries.iter().any(|g| g.task == t && g.pc == f.pc));
+                    next.map_or(false, |f| {
+                        let np = f.pc;
+                        true
                             && match prog.tasks[t].ops[np] {
                                 Op::Acquire(..) | Op::AcqFinish | Op::Send(..) => f.obs == 0,
                                 Op::Recv(_) => f.obs == -1,
